@@ -72,6 +72,7 @@ func init() {
 			}
 			for su := 0; su < 3; su++ {
 				cs = append(cs, ev.MkCase("batch", c07Batch{What: "api", Seed: seed + int64(su), Count: na}))
+				cs = append(cs, ev.MkCase("batch", c07Batch{What: "packet", Seed: seed*13 + int64(su), Count: na}))
 			}
 			return cs
 		},
@@ -181,6 +182,29 @@ func c07CompareIn(run *ev.Run, sp *layerSpec, enc []byte, want any, branch strin
 	}
 	// trailing payload where the layer defines one
 	switch sp.Name {
+	case "FullSensorRecord":
+		fsr := l.(*ipmi.FullSensorRecord)
+		// the record ends with its ID string: type/length byte 42, then 1 byte per character
+		// (8-bit encodings), a nibble (BCD plus) or 6 bits (packed ASCII), rounded up
+		chars := int(enc[42] & 0x1f)
+		idBytes := map[byte]int{0: chars, 1: (chars + 1) / 2, 2: (chars*6 + 7) / 8, 3: chars}[enc[42]>>6]
+		end := 43 + idBytes
+		if end > len(enc) || len(fsr.LayerContents()) != end || !bytes.Equal(fsr.LayerPayload(), enc[end:]) {
+			run.Violation("C07:FullSensorRecord:extent", fmt.Sprintf("record %x (branch %s, %d ID string bytes): the layer claims %d bytes and leaves %x as payload, the record is %d bytes followed by %x", enc, branch, idBytes, len(fsr.LayerContents()), fsr.LayerPayload(), end, enc[min(end, len(enc)):]), cs, nil)
+			return
+		}
+		if reused != nil {
+			// the record cut anywhere inside its ID string is shorter than it says it is
+			for cut := 43; cut < end; cut++ {
+				t := sp.New()
+				var terr error
+				pv, _ := safe(func() { terr = t.DecodeFromBytes(exactCopy(enc[:cut]), gopacket.NilDecodeFeedback) })
+				if pv == nil && terr == nil {
+					run.Violation("C07:FullSensorRecord:short-body-accepted", fmt.Sprintf("record %x cut to %d of its %d bytes (inside the ID string) decoded without error", enc, cut, len(enc)), cs, nil)
+					return
+				}
+			}
+		}
 	case "GetSDRRsp":
 		if p := l.(*ipmi.GetSDRRsp).LayerPayload(); !bytes.Equal(p, enc[2:]) {
 			run.Violation("C07:GetSDRRsp:payload", fmt.Sprintf("record data %x, want %x", p, enc[2:]), cs, nil)
@@ -263,6 +287,8 @@ func c07Exec(run *ev.Run, c ev.Case) {
 			c07IDStrings(run, byte(b.Count), b.Seed, c)
 		case "api":
 			c07API(run, b.Seed, b.Count, c)
+		case "packet":
+			c07Packet(run, b.Seed, b.Count, c)
 		}
 	}
 }
@@ -585,4 +611,68 @@ func c07API(run *ev.Run, seed int64, count int, cs ev.Case) {
 	}
 	_ = bmc.ValidateResponse
 	_ = rand.Int
+}
+
+// c07Packet decodes through gopacket's packet API (the registered layer
+// decoders, which RetrieveSDRRepository uses too): a rejected input first, then
+// valid encodings whose layers the caller keeps; each kept layer must still hold
+// its own values after later packets were decoded.
+func c07Packet(run *ev.Run, seed int64, count int, cs ev.Case) {
+	r := rng(seed, "c07packet")
+	types := []struct {
+		spec string
+		lt   gopacket.LayerType
+	}{{"FullSensorRecord", ipmi.LayerTypeFullSensorRecord}, {"SDR", ipmi.LayerTypeSDR}, {"GetDeviceIDRsp", ipmi.LayerTypeGetDeviceIDRsp}, {"GetSDRRsp", ipmi.LayerTypeGetSDRRsp}}
+	for _, ty := range types {
+		sp := specByName(ty.spec)
+		type kept struct {
+			l    gopacket.Layer
+			want any
+			enc  []byte
+		}
+		var held []kept
+		for i := 0; i < count; i++ {
+			run.Eval(1)
+			enc, want, br := sp.Gen(r)
+			if i%5 == 0 && len(enc) > 2 {
+				// an input the decoder refuses (cut short)
+				p := gopacket.NewPacket(exactCopy(enc[:1+r.Intn(sp.MinLen)]), ty.lt, gopacket.Default)
+				_ = p.ErrorLayer()
+				run.Event("rejected-packets", 1)
+			}
+			p := gopacket.NewPacket(exactCopy(enc), ty.lt, gopacket.Default)
+			run.Nontrivial(fmt.Sprintf("packet|%s|%s|%d", ty.spec, br, i%5))
+			l := p.Layer(ty.lt)
+			if l == nil {
+				// (layers that name a next layer go on to decode their payload, which may
+				// fail for these generated bodies: only the layer itself is required)
+				run.Violation("C07:"+ty.spec+":packet-api-rejects-valid-encoding", fmt.Sprintf("%s: gopacket.NewPacket does not yield the layer for %x: %v", ty.spec, enc, p.ErrorLayer()), cs, nil)
+				break
+			}
+			if d := fieldDiff(valueFields(l), valueFields(want)); len(d) > 0 {
+				run.Violation("C07:"+ty.spec+":packet-api-field:"+strings.SplitN(d[0], ":", 2)[0], fmt.Sprintf("%s decoded %x through the packet API with wrong fields: %v", ty.spec, enc, d), cs, nil)
+				break
+			}
+			bad := false
+			for _, h := range held {
+				if h.l == l {
+					run.Violation("C07:"+ty.spec+":packet-api-shares-layer", fmt.Sprintf("%s: two packets (%x and %x) were given the same layer value", ty.spec, h.enc, enc), cs, nil)
+					bad = true
+					break
+				}
+				if d := fieldDiff(valueFields(h.l), valueFields(h.want)); len(d) > 0 {
+					run.Violation("C07:"+ty.spec+":earlier-value-changed:"+strings.SplitN(d[0], ":", 2)[0], fmt.Sprintf("%s: the layer of an earlier packet (%x) changed when %x was decoded: %v", ty.spec, h.enc, enc, d), cs, nil)
+					bad = true
+					break
+				}
+			}
+			if bad {
+				break
+			}
+			held = append(held, kept{l, want, enc})
+			if len(held) > 4 {
+				held = held[1:]
+			}
+		}
+	}
 }
